@@ -184,4 +184,17 @@ META = {
         "level_note": "trusted: vf/sched/coop.py + shims; termination only as 'no deadlock / no virtual timeout on explored schedules'",
         "technique": "fault injection at enumerated (stage, chunk) positions under a cooperative deterministic scheduler with virtual time; exception-identity and thread-termination monitors",
     },
+    "C13": {
+        "level_text": (
+            "The consumer of get_iter pulls k chunks and parks; under the cooperative scheduler the rest of the "
+            "real pipeline runs until the scheduler detects quiescence. Monitors: number of source chunks "
+            "produced (must stay below a bound depending only on graph and capacity, and be identical for runs "
+            "of N, 2N (4N) chunks under the adversarial upstream-first schedule), the largest number of messages "
+            "every mailbox ever held (recorded at every heap push; <= capacity in eager mode), and in lazy mode "
+            "the demand state of the fed mailbox at every producer advance. Five graph shapes x capacity 1..4 x "
+            "lazy/eager x k 1..3 x adversarial / random / PCT schedules."
+        ),
+        "level_note": "trusted: vf/sched/coop.py quiescence detection; the explicit bound is generous by construction",
+        "technique": "controlled-schedule runtime monitoring with quiescence detection (park-the-consumer probe), conservation/bound monitors on mailbox occupancy and producer advances",
+    },
 }
